@@ -738,7 +738,7 @@ impl World {
     pub fn exec_event(&mut self, ev: &mut Event, g: GenRef<'_>) {
         self.stats.events += 1;
         let acting: Option<Aid> = match ev {
-            Event::Mutate { a, .. } | Event::Collect { a, .. } | Event::SetPacing { a, .. } | Event::AdjustDebt { a, .. } | Event::NewArena { a, .. } | Event::DropArena { a } => Some(*a),
+            Event::Mutate { a, .. } | Event::Collect { a, .. } | Event::SetPacing { a, .. } | Event::AdjustDebt { a, .. } | Event::NewArena { a, .. } | Event::DropArena { a } | Event::Rootless { a, .. } => Some(*a),
             Event::Handle { h, .. } => self.handles.get(h).map(|x| x.arena),
             Event::ArmTraceFault { .. } | Event::ArmDropFault { .. } => None,
         };
@@ -746,7 +746,7 @@ impl World {
             // the event with its op lists emptied: ops follow one by one as they are executed
             let mut shell = ev.clone();
             match &mut shell {
-                Event::Mutate { ops, .. } | Event::NewArena { ops, .. } | Event::Collect { then: MarkedAction::Finalize(ops), .. } => ops.clear(),
+                Event::Mutate { ops, .. } | Event::NewArena { ops, .. } | Event::Rootless { ops, .. } | Event::Collect { then: MarkedAction::Finalize(ops), .. } => ops.clear(),
                 _ => {}
             }
             let j = serde_json::to_string(&shell).unwrap_or_default();
@@ -805,6 +805,7 @@ impl World {
             Event::ArmDropFault { nth } => tok::arm_drop_fault(*nth),
             Event::NewArena { a, root_set, ops, p, fail, bare, static_root } => self.ev_new_arena(*a, *root_set, ops, *p, *fail, *bare, *static_root, g),
             Event::DropArena { a } => self.ev_drop_arena(*a),
+            Event::Rootless { a, root_set, ops } => self.ev_rootless(*a, *root_set, ops, g),
         }
         // isolation frame (C20) and per-event metrics oracles
         for a in self.live_arenas() {
